@@ -124,6 +124,18 @@ add("C15", "exploration",
     "deterministic simulation of record histories through storage: Hypothesis stateful machine over the real writer and both real "
     "readers; saved-run reuse under a different cell", qt=1200, tt=3000)
 
+add("C18", "exploration",
+    "Two layers. Machine: seeded sequences of up to 8 queries (read/model canonical checks on chosen strands, strand detection "
+    "with polyA/polyT evidence) against one locus whose candidate introns carry seeded dinucleotide pairs, through the real "
+    "IOSupport / StrandDetector; every answer must equal a pure function of (sequence, introns, strand) whatever was asked "
+    "before - including the same intron on opposite strands in both orders. Pipeline: --check_canonical runs of workloads with "
+    "antisense genes sharing introns and non-canonical genes under permuted tie order, placement and hash seed; every Canonical "
+    "flag and the strand of every novel spliced model is recomputed from the FASTA.",
+    "Trusted: the 15-line reference functions; strand '.' records are only checked for a well-formed flag; models sharing an intron "
+    "with a reference transcript of the other strand are not judged for strand.",
+    "deterministic simulation of query histories against per-locus memos (Hypothesis sequences vs pure reference function) + "
+    "FASTA-recomputation oracle over simulated pipeline runs")
+
 PENDING = {p: "simulation target (DESIGN.md sections 3-4) whose check is not registered in this revision yet"
            for p in ["C02", "C03", "C05", "C07", "C08", "C09", "C10", "C12", "C15", "C17", "C18", "C20"]}
 
